@@ -108,13 +108,17 @@ func VfC16Churn() {
 	L, K := vf.Param("L"), vf.Param("K")
 	p := &Peering{links: map[netip.Addr]Link{}, linksByLabel: map[m.SwitchLabel]Link{}, instance: &vfInstance{}}
 	vfP = p
+	// the model "every schedule is a sequence of atomic steps" is only sound if the registry maps
+	// are never touched outside linksLock: record every access to them
+	vf.GuardMap(p.links, "registry")
+	vf.GuardMap(p.linksByLabel, "registry")
 	ls := make([]*vfLinkState, L)
 	for i := range ls {
 		ls[i] = &vfLinkState{l: &LinkBase{conn: &vfConn{closeErr: vf.Bool()}, peering: p, closed: make(chan struct{}), peer: vfAddr16()}}
 	}
 	for k := 0; k < K; k++ {
 		s := ls[vf.Choose(L)]
-		switch vf.Choose(4) {
+		switch vf.Choose(5) {
 		case 0: // setup step 1: label (only once, before registering)
 			vf.Assume(!s.labelled && !s.l.closing.Load())
 			// handlePeeringRequest refuses when a link to that peer is already registered
@@ -131,13 +135,26 @@ func VfC16Churn() {
 		case 2: // local close / I/O failure / remote close (reader or writer calls Close)
 			vf.Assume(s.labelled)
 			s.l.Close(nil)
-		default: // close by peer address (manager)
+		case 3: // close by peer address (manager)
 			vf.Assume(s.registered)
 			p.CloseLink(s.l.peer)
+		default: // readers of the registry and the shutdown path (Peering.Stop closes all links)
+			_ = p.LinkCnt()
+			_ = p.GetLinks()
+			_ = p.IsStub()
+			if vf.Bool() {
+				p.closeAllLinks()
+				for _, t := range ls {
+					if t.registered {
+						vf.Assert(t.l.closing.Load(), "link-survives-close-all")
+					}
+				}
+			}
 		}
 		vfCheckJ(p, ls)
 	}
 	// the steps above are atomic only if registry and peer routes change together under linksLock
 	vf.Assert(vf.HeldDuring(&p.linksLock, "rt.op"), "peer-route-changed-outside-registry-lock")
+	vf.Assert(vf.HeldDuring(&p.linksLock, "map:registry"), "registry-map-touched-outside-registry-lock")
 	vf.Reach("done")
 }
